@@ -988,3 +988,13 @@ def check(ctx, run):  # noqa: F811
         if q.endswith("generate_merton_jump") or q.endswith("generate_kou_jump"):
             results[q] = [r for r in ctx.interp.explore(fi, [], kw, max_paths=200)]
     compensators(ctx, run, results)
+
+
+_check_before_ctors = check
+
+
+def check(ctx, run):  # noqa: F811
+    _check_before_ctors(ctx, run)
+    from ..ctors import ctor_rule
+    from ..primaries import primary_classes
+    ctor_rule(ctx, run, "C10.R9", primary_classes(ctx.prog), None, "a model parameter the generator receives (self.<name>) is not the one the instrument was created with")
